@@ -117,13 +117,15 @@ func init() {
 					check(histCase{defaultCfg, base, input, nil, "parse", idx}, -1, io.Fields)
 				}
 			})
-			famHist(c, defaultCfg, 12000*c.Scale, 6, "s", false, allButVerrs, "setters", func(d *Driver, hc histCase, h *implHist, steps []Step, start Obs) {
+			eachState := func(d *Driver, hc histCase, h *implHist, steps []Step, start Obs) {
 				for k, s := range steps {
 					for _, f := range liveSlots(s) {
 						check(hc, k, f)
 					}
 				}
-			})
+			}
+			famHist(c, defaultCfg, 12000*c.Scale, 6, "s", false, allButVerrs, "setters", eachState)
+			famEdgeHist(c, defaultCfg, allButVerrs, "edge-pairs", false, eachState)
 		},
 		rule: "parse results (WPT + generated inputs, with and without base) and every state of generated setter histories (1-6 of the nine setters, values from component generators); for each state Parse(Href(false)) must succeed and reproduce all 19 observables; distinct = distinct (start, op list); non-trivial = start parsed and at least one setter applied, or parse got past the scheme state",
 		assume: []string{"exception of the property (protocol setter to file with a non-normalised drive letter first segment) is skipped by shape: scheme=file and pathname starts with /X|"},
@@ -141,13 +143,15 @@ func init() {
 					check(d, histCase{defaultCfg, base, input, nil, "parse", idx}, -1, io.Fields)
 				}
 			})
-			famHist(c, defaultCfg, 10000*c.Scale, 6, "sssr", false, allButVerrs, "setters+resolve", func(d *Driver, hc histCase, h *implHist, steps []Step, start Obs) {
+			eachState := func(d *Driver, hc histCase, h *implHist, steps []Step, start Obs) {
 				for k, s := range steps {
 					for _, f := range liveSlots(s) {
 						check(d, hc, k, f)
 					}
 				}
-			})
+			}
+			famHist(c, defaultCfg, 10000*c.Scale, 6, "sssr", false, allButVerrs, "setters+resolve", eachState)
+			famEdgeHist(c, defaultCfg, allButVerrs, "edge-pairs", false, eachState)
 		},
 		rule: "parse results and every state of generated histories of setters and in-place resolutions; the extracted Coq predicate inv_obs (16 clauses) is evaluated on the implementation's getter values",
 	}
@@ -164,13 +168,15 @@ func init() {
 					check(d, histCase{defaultCfg, base, input, nil, "parse", idx}, -1, io.Fields)
 				}
 			})
-			famHist(c, defaultCfg, 10000*c.Scale, 6, "ssssrcR", true, allButVerrs, "setters+resolve+clone", func(d *Driver, hc histCase, h *implHist, steps []Step, start Obs) {
+			eachState := func(d *Driver, hc histCase, h *implHist, steps []Step, start Obs) {
 				for k, s := range steps {
 					for _, f := range liveSlots(s) {
 						check(d, hc, k, f)
 					}
 				}
-			})
+			}
+			famHist(c, defaultCfg, 10000*c.Scale, 6, "ssssrcR", true, allButVerrs, "setters+resolve+clone", eachState)
+			famEdgeHist(c, defaultCfg, allButVerrs, "edge-pairs", false, eachState)
 		},
 		rule: "parse results and every state (both slots) of generated histories of setters, resolutions and clones; the extracted Coq predicate acc_obs (8 clauses) is evaluated on the implementation's getter values",
 	}
@@ -179,6 +185,7 @@ func init() {
 		run: func(c *Ctx) {
 			runSetterVectors(c)
 			famHist(c, defaultCfg, 25000*c.Scale, 6, "s", false, apiFields, "setters", nil)
+			famEdgeHist(c, defaultCfg, apiFields, "edge-pairs", false, nil)
 		},
 		rule: "the 247 WPT setter vectors (implementation and model against the expected values) + generated setter histories (1-6 setters) compared between model and implementation on the ten API getters after every step",
 	}
@@ -187,6 +194,9 @@ func init() {
 		run: func(c *Ctx) {
 			famHist(c, defaultCfg, 25000*c.Scale, 8, "ppppqqs", false, allButVerrs, "sp+setsearch+setters", func(d *Driver, hc histCase, h *implHist, steps []Step, start Obs) {
 				// replay on the implementation with the explicit post-conditions
+				c12Replay(c, hc)
+			})
+			famEdgeHist(c, defaultCfg, allButVerrs, "edge-pairs+sp", true, func(d *Driver, hc histCase, h *implHist, steps []Step, start Obs) {
 				c12Replay(c, hc)
 			})
 		},
@@ -386,4 +396,75 @@ func idnaStrictZone(host string) bool {
 		}
 	}
 	return ace && trigger
+}
+
+// ---------- bounded-exhaustive edge histories ----------
+
+// edge values per setter (index = setter): values chosen at the boundaries of the setter algorithms
+var edgeValues = [9][]string{
+	{"file", "http", "https", "sc", "ws:", "", "FILE:", "a b"},                                   // protocol
+	{"", "u", "a:b@"},                                                                           // username
+	{"", "p", "é"},                                                                              // password
+	{"", "h", "h:81", "[::1]", "1.2.3.4", "localhost", "x:", "é.b", "h:80", "0x7f.1", "a/b", ":9"}, // host
+	{"", "h", "localhost", "[::1]", "x:1", "a b"},                                               // hostname
+	{"", "0", "80", "443", "8080", "65536", "x", "8x"},                                          // port
+	{"", "/", "a", "//x", "/.//x", "C|", "/C|/..", "..", " ", "/a/../b", "\\x", "?", "#"},       // pathname
+	{"", "?", "q", "?a=b", "#", "a b", "%ff=1&😀=1", "a=%41&a=2"},                                // search
+	{"", "#", "f", " ", "#a b", "?"},                                                            // hash
+}
+
+var edgeStarts = []string{
+	"http://h/", "http://u:p@h:81/a/b?q#f", "http://:secret@h/p", "http://u@h/", "https://h:444/", "http://h/?#", "http://h/?",
+	"http://1.2.3.4/x", "http://[::1]:81/", "ws://localhost/%2F", "ftp://h/a/../b",
+	"file:///C:/x", "file://h/x", "file:///", "file:///C|/x", "file://localhost/x?q",
+	"sc://h/p?q#f", "sc://h", "sc://", "sc:/x", "sc:/.//x", "sc://u:p@h:1/", "sc:///x", "sc://h?q", "sc://:pw@h/",
+	"data:text  ?a=b#frag", "sc:opaque  ?#x", "mailto:me@example.net", "sc:opaque  ", "sc:opaque  #f", "sc:o  ?q", "about:blank",
+	"javascript:alert(1)  ?  #  ", "a:b", "a:", "a:/", "a://", "a:?", "a:#",
+}
+
+type edgeOp struct {
+	w int
+	v string
+}
+
+func allEdgeOps() []edgeOp {
+	var r []edgeOp
+	for w, vs := range edgeValues {
+		for _, v := range vs {
+			r = append(r, edgeOp{w, v})
+		}
+	}
+	return r
+}
+
+// famEdgeHist: every start x every single edge op and every PAIR of edge ops (setters only), plus
+// for sp=true the SearchParams touch before / append after variants.
+func famEdgeHist(c *Ctx, cfg *Cfg, fields []int, fam string, withSP bool,
+	each func(d *Driver, cs histCase, h *implHist, steps []Step, start Obs)) {
+	ops := allEdgeOps()
+	n := len(ops)
+	total := len(edgeStarts) * (n + n*n)
+	c.Pool.Run(total, func(d *Driver, i int) {
+		s := edgeStarts[i/(n+n*n)]
+		k := i % (n + n*n)
+		var hops []Op
+		if k < n {
+			hops = []Op{{K: "s", W: ops[k].w, A: ops[k].v}}
+		} else {
+			k -= n
+			hops = []Op{{K: "s", W: ops[k/n].w, A: ops[k/n].v}, {K: "s", W: ops[k%n].w, A: ops[k%n].v}}
+		}
+		if withSP {
+			switch i % 3 {
+			case 1:
+				hops = append([]Op{{K: "T"}}, hops...)
+			case 2:
+				hops = append(hops, Op{K: "a", A: "k", B: "v"})
+			}
+		}
+		h, steps, start := c.cmpHist(d, cfg, nil, s, hops, fields, fam, i)
+		if each != nil && h != nil {
+			each(d, histCase{cfg, nil, s, hops, fam, i}, h, steps, start)
+		}
+	})
 }
